@@ -131,6 +131,55 @@ pub fn guard_async<T>(what: &str, fut: impl Future<Output = T>) -> V<T> {
     }
 }
 
+/// Performs a handful of calls that the crate must refuse (each returns `Err`) on the current
+/// thread. A failed call must leave no trace in what later calls do; state that leaks across
+/// calls (thread-local scratch buffers, caches) shows up in the case that follows.
+pub fn poison_thread(seed: u64) {
+    use pmtiles2::{Directory, Entry};
+    let mut r = crate::rng::Rng::new(seed);
+    let n = 2 + r.usize_below(40);
+    let mut es: Vec<Entry> = (0..n).map(|i| Entry { tile_id: 3 * i as u64, offset: 7 * i as u64, length: 5 + i as u32, run_length: 1 }).collect();
+    let bad = 1 + r.usize_below(n - 1);
+    es[bad].length = 0;
+    static DAMAGED: std::sync::OnceLock<Vec<Vec<u8>>> = std::sync::OnceLock::new();
+    let damaged = DAMAGED.get_or_init(|| {
+        let junk: Vec<u8> = (0..3000u32).map(|i| (i * 7 + i / 13) as u8).collect();
+        (1..=4u8)
+            .map(|ic| {
+                let mut z = crate::spec::compress(ic, &junk).unwrap_or_default();
+                z.truncate(z.len() * 2 / 3);
+                z
+            })
+            .collect()
+    });
+    // one codec per call keeps the prelude cheap (brotli's encoder set-up dominates otherwise)
+    let ic = 1 + (seed % 4) as u8;
+    let _ = guard("poison", || {
+        // serialisation refused half-way (length 0 at a later index)
+        let d: Directory = es.clone().into();
+        let mut sink: Vec<u8> = Vec::new();
+        let _ = d.to_writer(&mut sink, comp(ic));
+        // serialisation of a valid directory onto a stream whose first write fails
+        let mut ok = es.clone();
+        ok[bad].length = 9;
+        let d2: Directory = ok.into();
+        let mut dead = SimDisk::plain(Vec::new()).fault(crate::disk::Fault::FailStop { at: 0, kind: crate::disk::FKind::Other });
+        let _ = d2.to_writer(&mut dead, comp(ic));
+        // a damaged compressed stream through the one-shot decoder and the directory parser
+        let z = &damaged[(ic - 1) as usize];
+        let _ = pmtiles2::util::decompress_all(comp(ic), z);
+        let _ = Directory::from_bytes(z, comp(ic));
+        // an archive writer whose stream fails early, an empty add, garbage handed to the reader
+        let mut pm: Pm = PMTiles::default();
+        pm.internal_compression = comp(if ic == 3 { 2 } else { ic });
+        let _ = pm.add_tile(1, vec![1u8, 2, 3]);
+        let _ = pm.add_tile(2, Vec::<u8>::new());
+        let mut dead = SimDisk::plain(Vec::new()).fault(crate::disk::Fault::FailStop { at: 1, kind: crate::disk::FKind::Other });
+        let _ = pm.to_writer(&mut dead);
+        let _ = PMTiles::from_bytes(&b"PMTiles\x03 not really an archive"[..]);
+    });
+}
+
 // ---------------------------------------------------------------------------------------------
 // enum codes
 
